@@ -78,7 +78,7 @@ pub fn value_to_tree(v: &Value) -> J {
 // The harness' own encoder, used to build the *inputs* of byte-level functions so that a
 // check of one function does not depend on the crate's encoder.  The validator re-checks every
 // input against spec/Jsonb.tla Encode, so a mistake here is a tool error, never a verdict.
-fn compact_num(n: &Number, out: &mut Vec<u8>) {
+pub fn compact_num(n: &Number, out: &mut Vec<u8>) {
     match n {
         Number::UInt64(v) => {
             if *v == 0 { out.push(0x00); }
